@@ -162,6 +162,17 @@ CHECKS = {
         "text": "Queue: 2-3 threads x 1-2 calls x cores that accept every batch / limit batches to two / refuse batching x 2 or 4 wait-list slots: every call returns f(own input), the core sees every input exactly once, program order and real-time order are preserved, batch limits are respected, and loom's deadlock detector finds no execution in which a call blocks forever. Wait list: 2-3 threads through 1, 2 or 4 slots (more waiters than slots): waiters become head in link order, nobody is lost. LRU: 2 threads x 2 operations linearizable against a map; sequentially, all 7.8 M operation sequences <= 5 (148 M <= 6 thorough) over insert / insert_no_evict / lookup / remove / pop with sizes {1,3} and capacities {0,3,4} against a set-valued LRU reference, and all wait-list link/unlink/notify/iterate sequences <= 8 over 4 guards.",
         "note": "The LRU reference admits both answers where the documentation is silent (does overwrite refresh recency). loom bounds as for C17.",
     },
+    "C19": {
+        "level": "exploration",
+        "technique": "bounded-exhaustive input enumeration on the real scrunch code (every text over small alphabets up to a length bound x every record-boundary set x every pattern; every bit pattern up to a length bound plus run-structured vectors) against a naive scan / Vec<bool> reference",
+        "design_ref": "DESIGN.md 3.4, 4 (C19)",
+        "jobs": {
+            "quick": [{"ws": "harness", "bin": "enum_scrunch", "args": [], "timeout": 1800}],
+            "thorough": [{"ws": "harness", "bin": "enum_scrunch", "args": ["--stall-secs", "1800"], "timeout": 20000}],
+        },
+        "text": "Documents: every text over alphabets of 1-4 symbols (plus large-code-point and extreme-symbol families) up to the per-family length bound in evidence.bound, every admissible record-boundary set (one record ... one symbol per record), built with CompressedDocument::construct, unpacked twice at different addresses, constructed twice (identical bytes); len, records, lookup of every offset, offset_of/retrieve of every record byte for byte, search (as a sorted set) and count for every pattern up to length n+1 over the alphabet plus an absent symbol plus boundary code points, against a naive scan of the Vec<u32>. Long structured texts (periodic, de Bruijn, all-equal, thousands of symbols) with their substrings as patterns. Record indexes past the end must give Err on a ladder up to usize::MAX. Bit vectors: every bit pattern up to the length bound and run-structured vectors across word/branch boundaries, for the reference, dense (rrr) and sparse implementations: access, rank, rank0, select, select0, access_rank for every argument in and just outside the domain plus the far ladder, against a Vec<bool>.",
+        "note": "The constructors refuse the empty text and empty records with an explicit error (check_record_boundaries); that is counted (note:doc:construct:refuses:*), not reported. Where texts x boundary sets x patterns exceeds the level budget, the non-canonical boundary sets get the reduced pattern set (evidence.bound.documents.levels states which). Level is exploration: the space is a bounded input enumeration, no interleavings or crash points are involved.",
+    },
     "C20": {
         "level": "model_checking",
         "technique": "explicit-state search of every reachable stall state (sequential, every threshold row) plus stateless model checking under loom of writer + flush loop + real compaction loops with the deadlock detector as oracle",
@@ -250,12 +261,13 @@ ENGINES = [
     {"name": "logmc", "path": "harness/logmc", "serves_properties": ["C12"], "kind_free_text": "bounded exhaustive batch-size sequences and truncations on the real log builder/reader"},
     {"name": "sstmc", "path": "harness/sstmc", "serves_properties": ["C10", "C11"], "kind_free_text": "bounded exhaustive entry sequences x cursor programs on real blocks, SSTs and cursor combinators against vector references"},
     {"name": "enumc", "path": "harness/enumc", "serves_properties": ["C14", "C16"], "kind_free_text": "bounded-exhaustive input enumeration for setsum and the tuple-key crates against independent references"},
+    {"name": "scrunchmc", "path": "harness/scrunchmc", "serves_properties": ["C19"], "kind_free_text": "bounded-exhaustive texts x record boundaries x patterns and bit patterns on the real scrunch code against a naive scan and a Vec<bool>"},
     {"name": "manimc", "path": "harness/manimc", "serves_properties": ["C13", "C18"], "kind_free_text": "bounded exhaustive operation sequences on the real Manifest, LRU cache and wait list against sequential references"},
     {"name": "codecmc", "path": "harness/codecmc", "serves_properties": ["C15"], "kind_free_text": "bounded-exhaustive input enumeration for buffertk/prototk against an independent wire codec"},
     {"name": "crashmc", "path": "harness/crashmc", "serves_properties": ["C02", "C04", "C08"],
      "kind_free_text": "syscall journal by in-binary libc interposition, crash-image reconstruction, loss variants, single-fault injection"},
-    {"name": "loomh", "path": "loomh", "serves_properties": ["C06", "C17", "C18", "C20"],
+    {"name": "loomh", "path": "loomh", "serves_properties": ["C06", "C07", "C12", "C17", "C18", "C20"],
      "kind_free_text": "loom (vendored, patched DPOR dependency tracking) over the real concurrent code, one child process per configuration, iterative preemption bounding"},
-    {"name": "seqmc", "path": "harness/seqmc", "serves_properties": ["C01", "C03", "C04", "C05", "C07", "C08", "C20"],
-     "kind_free_text": "bounded exhaustive exploration of operation sequences on the real lsmtk store, single-stepped background loops"},
+    {"name": "seqmc", "path": "harness/seqmc", "serves_properties": ["C01", "C03", "C04", "C05", "C06", "C07", "C08", "C20"],
+     "kind_free_text": "bounded exhaustive exploration of operation sequences on the real lsmtk store, single-stepped background loops; sched_store: real threads under a cooperative scheduler at named points, preemption-bounded DFS"},
 ]
